@@ -15,8 +15,14 @@ open Pithos.S3 Pithos.Migrator
 
 /-- **migrate_fields_complete.** Every attribute the property names flows, in the current source, from
 the source object through `s3.PutObjectInput` and the uploader adapter into the destination's
-`PutObject` and into its `CreateMultipartUpload`/`UploadPart` (objects above the 5 MiB part size). -/
-theorem migrate_fields_complete : ∀ f ∈ observableFields, f ∈ migratedFields genTable := by decide
+`PutObject` (single-put path) and — separately — into its `CreateMultipartUpload`/`UploadPart` (multipart
+path, objects above the 5 MiB part size); on both paths the options struct that carries it is built
+whenever the attribute is present (the guarding condition tests its value). -/
+theorem migrate_fields_complete :
+    ∀ f ∈ observableFields, flowsPut genTable f = true ∧ flowsMultipart genTable f = true := by decide
+
+/-- … in particular each of them is among the attributes the model carries. -/
+theorem migrate_fields_complete_carried : ∀ f ∈ observableFields, f ∈ migratedFields genTable := by decide
 
 /-- The current table has no gap (before /repo commit ae066fa it was `[.storageClass]`). -/
 theorem current_gap : observableFields.filter (fun f => !flows genTable f) = [] := by decide
@@ -34,7 +40,8 @@ provable. -/
 def preFixTable : FlowTable :=
   { genTable with
     inputAssignments := genTable.inputAssignments.filter (fun a => a.1 != "StorageClass"),
-    adapterFlows := genTable.adapterFlows.filter (fun a => a.2.1 != "StorageClass") }
+    adapterFlows := genTable.adapterFlows.filter (fun a => a.2.1 != "StorageClass"),
+    optionValues := genTable.optionValues.filter (fun a => a.2.1 != "StorageClass") }
 
 /-- Negation witness (code before the repair): the storage class was the one attribute not carried. -/
 theorem preFix_storage_class_not_migrated :
